@@ -49,15 +49,29 @@ Definition change_info (code : Z) : str * option str :=
   | None => match lookup_change 0%Z Tables.change_info with Some v => v | None => ([], None) end
   end.
 
-Definition bool_attr (name : string) (b : bool) : list (str * str) := if b then [(s2l name, s2l "True")] else [].
+(* BeautifulSoup writes attributes sorted by name (Formatter.attributes) *)
+Fixpoint key_ltb (a b : str) : bool :=
+  match a, b with
+  | [], [] => false
+  | [], _ :: _ => true
+  | _ :: _, [] => false
+  | x :: a', y :: b' => if N.ltb x y then true else if N.ltb y x then false else key_ltb a' b'
+  end.
 
-(* attributes in the order BeautifulSoup writes them (sorted by name) *)
+Fixpoint insert_attr (kv : str * str) (l : list (str * str)) : list (str * str) :=
+  match l with
+  | [] => [kv]
+  | x :: l' => if key_ltb (fst kv) (fst x) then kv :: l else x :: insert_attr kv l'
+  end.
+
+Definition sort_attrs (l : list (str * str)) : list (str * str) := fold_right insert_attr [] l.
+
+(* the row's attributes: the class and the boolean flags that are True (a False value removes the
+   attribute; True is written as the string "True"); the flag names and their conditions on the
+   change code are translated from the dict literal in _table_row_for_link on every run *)
 Definition row_attrs (code : Z) : list (str * str) :=
-  [cls "links-list--item"]
-  ++ bool_attr "wm-deleted" (Z.eqb code (-1))
-  ++ bool_attr "wm-has-deletions" (Z.ltb code 0 || Z.eqb code 100)
-  ++ bool_attr "wm-has-insertions" (Z.ltb 0 code)
-  ++ bool_attr "wm-inserted" (Z.eqb code 1).
+  sort_attrs ((s2l "class", Tables.row_class) ::
+              flat_map (fun p : str * bool => if snd p then [(fst p, s2l "True")] else []) (Tables.row_flags code)).
 
 Definition paren_l : hnode := HText [40].
 Definition paren_r : hnode := HText [41].
